@@ -61,3 +61,9 @@ package connectconformance
 
 // nameGlobs(tt, name): some pattern of tt globs the "/"-separated components of name.
 //@ spec nameGlobs(tt *testTrie, name string) bool = trieT(tt, splitView(name, "/"))
+
+//@ func tryMatchPatterns
+//@   requires patterns != nil
+//@   requires forall i int :: 0 <= i && i < len(testCases) ==> testCases[i] != nil && testCases[i].Request != nil
+//@   modifies atomicI32
+//@   loop 0: invariant 0 <= matchCount && matchCount <= rangeindex + 1
